@@ -3,7 +3,7 @@ from plans import step
 PLAN = dict(
     coq_targets=["Props/C09.vo"],
     steps=[
-        step("heap-x86", "codegen-x86", "heap-x86", 0, 0, viol=r"class=heap-invariant"),
+        step("heap-x86", "codegen-x86", "heap-x86", 150, 6000, shards_thorough=12, viol=r"class=heap-invariant"),
         step("heap-families-x86", "c10-x86", "c10-x86", 0, 0, viol=r"class=heap-invariant"),
     ],
     rule="every program of the corpus (examples, testsuite, corpus/fun, corpus/c10) compiled by the real pipeline; the REAL x86-64 code is "
